@@ -79,7 +79,7 @@ def run_iter(pid, tier, seed):
                            {"property": pid, "nodes": 5 if pid == "C06" else 7},
                            "all ordered tree shapes up to N nodes, every start node" +
                            (", every stop subset, filtered-out subset, maxlevel -1..height+2" if pid == "C06" else ""),
-                           lemmas=LEMMAS_ITER, extra_quick=lambda res: bridge(res, tier))
+                           lemmas=LEMMAS_ITER, extra_quick=lambda res: bridge(res, tier), quick_search=True)
 
 
 # ------------------------------------------------------------------ C14
@@ -138,7 +138,7 @@ def run_search(pid, tier, seed):
         "getattr(node, name) either yields the attribute value or raises AttributeError (a property raising AttributeError counts as lacking)"],
         "queries.py", {"property": "C14", "nodes": 4}, {"property": "C14", "nodes": 5},
         "all ordered tree shapes up to N nodes, every start node, every kept subset, 3 stop sets, maxlevel, all count bounds, both modules",
-        lemmas=LEMMAS_ITER, select=False, extra_quick=lambda res: bridge(res, tier))
+        lemmas=LEMMAS_ITER, select=False, extra_quick=lambda res: bridge(res, tier), quick_search=True)
 
 
 def run(pid, tier, seed):
